@@ -24,7 +24,10 @@ Families == {"valve", "valvegold", "theship", "gs1", "gs2", "gs3", "quake1", "qu
 Modes == {"generic", "protocol-specific"}
 Formats == {"debug", "json", "json-pretty", "xml", "bson-hex", "bson-base64"}
 StrClasses == {"plain", "markup", "control", "nonascii", "empty"}
-Errors == {"unknown_game", "unresolvable_host", "unreachable_server", "bad_port", "bad_format", "zero_timeout", "bad_retries", "missing_ip"}
+\* flag values that denote no usable duration: zero, a positive value below the clock's resolution (it would round to zero),
+\* a negative number, text
+TimeoutErrors == {"zero_timeout", "tiny_read_timeout", "tiny_write_timeout", "tiny_connect_timeout", "negative_timeout", "text_timeout"}
+Errors == {"unknown_game", "unresolvable_host", "unreachable_server", "bad_port", "bad_format", "bad_retries", "missing_ip"} \cup TimeoutErrors
 
 Good == [kind : {"good"}, fam : Families, mode : Modes, fmt : Formats, str : StrClasses]
 Bad == [kind : {"bad"}, err : Errors, fmt : {"json", "xml"}]
@@ -32,7 +35,7 @@ Bad == [kind : {"bad"}, err : Errors, fmt : {"json", "xml"}]
 Init == c \in Good \cup Bad /\ stage = "args" /\ exit = 0
 
 \* the stage at which a bad invocation stops
-FailsAt(x) == CASE x.err \in {"bad_port", "bad_format", "zero_timeout", "bad_retries", "missing_ip"} -> "args"
+FailsAt(x) == CASE x.err \in {"bad_port", "bad_format", "bad_retries", "missing_ip"} \cup TimeoutErrors -> "args"
                 [] x.err = "unknown_game" -> "find"
                 [] x.err = "unresolvable_host" -> "resolve"
                 [] x.err = "unreachable_server" -> "query"
